@@ -40,7 +40,7 @@ Proof.
   rewrite (fr_max_swap r x v). lia.
 Qed.
 
-Lemma sdesc_new c : sdesc c new_summ [] 0.
+Lemma sdesc_new sc c : sdesc c (new_summ sc) [] 0.
 Proof. constructor; simpl; try tauto; try reflexivity; intros; try (split; [reflexivity|constructor]). unfold max_samples in *. lia. Qed.
 
 Lemma insert_sample_fields v s :
